@@ -51,7 +51,7 @@ TripleLines(n, t, rs0, as0) ==
     IN [i \in 1..Len(idx) |-> [ty |-> n, k |-> "t", a |-> s[idx[i][1]], b |-> s[idx[i][2]], c |-> s[idx[i][3]]]]
 
 TypeLines(n) ==
-    LET t == Catalogue[n]
+    LET t == Desc(n)
         rs == SetToSeq(Reps(t))
         as == [i \in 1..Len(rs) |-> Abs(t, rs[i])]
     IN ValLines(n, t, rs, as) \o PairLines(n, t, rs, as) \o TripleLines(n, t, rs, as)
